@@ -38,7 +38,7 @@ pub open spec fn add_ok(m: TcView, a: TyID, b: TyID, d: nat) -> bool decreases d
             (Type::Int, Type::Int) => true,
             (Type::Str, Type::Str) => true,
             (Type::Tuple(x), Type::Tuple(y)) => x.len() == y.len()
-                && forall|i: int| 0 <= i < x.len() ==> #[trigger] add_ok(m, x[i], y[i], (d - 1) as nat),
+                && forall|i: int| 0 <= i < x.len() ==> add_ok(m, #[trigger] x[i], y[i], (d - 1) as nat),
             _ => false,
         }
     }
@@ -65,7 +65,7 @@ proof fn lemma_intro(m: TcView, a: TyID, b: TyID)
 {
     assert forall|d: nat| add_ok(m, a, b, d) by {
         if d > 0 {
-            assert forall|i: int| 0 <= i < m[a]->Tuple_0.len() implies #[trigger] add_ok(m, m[a]->Tuple_0[i], m[b]->Tuple_0[i], (d - 1) as nat) by {
+            assert forall|i: int| 0 <= i < m[a]->Tuple_0.len() implies add_ok(m, #[trigger] m[a]->Tuple_0[i], m[b]->Tuple_0[i], (d - 1) as nat) by {
                 assert(add_ok_all(m, m[a]->Tuple_0[i], m[b]->Tuple_0[i]));
             }
         }
@@ -81,6 +81,7 @@ impl TypeChecker {
     { unimplemented!() }
 
     #[verifier::exec_allows_no_decreases_clause]
+    #[verifier::loop_isolation(false)]
     fn add(&mut self, span: Span, ctx: TypeCtx, a: TyID, b: TyID) -> (r: TypeResult<()>)
         ensures
             final(self).tyv() == old(self).tyv(),
@@ -94,11 +95,13 @@ impl TypeChecker {
 
             (Type::Float, Type::Float) | (Type::Int, Type::Int) | (Type::Str, Type::Str) => Ok(()),
 
-            (Type::Tuple(a), Type::Tuple(b)) if a.len() == b.len() => {
+            (Type::Tuple(a), Type::Tuple(b)) => if a.len() == b.len() {
                 /*@before loop 1*/ let ghost xs = a@; let ghost ys = b@;
                 for (a, b) in it: a.iter().zip(b.iter())
                     invariant
-                        self.tyv() == m, xs.len() == ys.len(),
+                        self.tyv() == m, m == old(self).tyv(), xs.len() == ys.len(),
+                        it.seq().len() == xs.len(),
+                        forall|i: int| 0 <= i < xs.len() ==> *(#[trigger] it.seq()[i]).0 == xs[i] && *it.seq()[i].1 == ys[i],
                         xs == m[a_id]->Tuple_0@, ys == m[b_id]->Tuple_0@, m[a_id] is Tuple, m[b_id] is Tuple,
                         forall|i: int| 0 <= i < it.index@ ==> #[trigger] add_ok_all(m, xs[i], ys[i]),
                 {
@@ -107,7 +110,15 @@ impl TypeChecker {
                 }
                 /*@after loop 1*/ proof { lemma_intro(m, a_id, b_id); }
                 Ok(())
-            }
+            } else { err_type_error!(
+                self,
+                span,
+                TypeError::BinOp {
+                    lhs: self.bake_type(a),
+                    rhs: self.bake_type(b),
+                    op: "+".to_string(),
+                }
+            ) },
 
             _ => err_type_error!(
                 self,
